@@ -77,6 +77,7 @@ identities of the recursive dynamics (part of C08), the derivative clause of C06
   tools_design.py            # regenerates this file
   tools_baseline.sh          # runs /repo's pinned suite and compares with /root/.vp/BASELINE.json (after every fix:)
   tools_seed.py              # confirms a sub-agent's seeded change and runs the registered check against it
+  tools_regress.py           # re-runs the registered quick check against every kept seeded change (after generators change)
   lean/                      # `lake new BR lib`, no `require`; lib BR + exe brdriver
     BR/Scalar.lean           # classes OrdField / Scalar, Float and Rat instances              (import-free)
     BR/LinAlg.lean           # V3 M3 V6 M6(blocks) T4 as structures                           (import-free)
@@ -398,6 +399,16 @@ def section8():
         'C20g': 'LaTeX cells are parsed back and compared with the rounded elements; scripted matrices at nd = 0, 1, 3 where rounding and truncation differ, and specials at nd = 0',
         'C11': 'small platforms placed up to 12 from the origin so that cond(invJ) reaches 1e3..1e4 (the upper part of the property\'s range)',
     }
+    metas = [(os.path.basename(os.path.dirname(d)), json.load(open(d))) for d in sorted(glob.glob(os.path.join(V, 'seeded', '*', 'meta.json')))]
+    n_all = len(metas)
+    n_str = sum(1 for nm, m in metas if m.get('confirmation', {}).get('check_before_strengthening'))
+    n_pre = sum(1 for nm, m in metas if 'before the first run' in strengthened.get(nm, '').lower())
+    out.insert(len(out) - 2, '**%d changes in seven rounds** (each round told the sub-agents what the earlier rounds had changed and asked for another function, mechanism, clause, input class or argument form). '
+               '%d were caught by the check as it stood; %d were missed at first and are caught since the generator / history grammar / argument forms were widened (column 5); '
+               'for %d of the last round the widening was made from the sub-agent\'s report before the check was first run against the change (marked). '
+               'After the last change to a generator all of them were run again (`tools_regress.py`): every one is reported. '
+               'What the misses had in common: the check was sound but its inputs were narrower than the property\'s quantifier (symmetric joint limits, equal centres of gravity, dense random wrenches, positional arguments only, one call per object, no NaN-safe comparison).\n' %
+               (n_all, n_all - n_str - n_pre, n_str, n_pre))
     for d in sorted(glob.glob(os.path.join(V, 'seeded', '*', 'meta.json'))):
         m = json.load(open(d))
         name = os.path.basename(os.path.dirname(d))
